@@ -63,19 +63,47 @@ def check(prog, run):
     # ---- K5 locations derived through index_to_loc(node.source, node.loc[0])
     r = run.rule("K5", "located errors derive (line, column) through index_to_loc(node.source, node.loc[0]) only for nodes that "
                        "have both; syntax errors through index_to_loc(self.source, self.position)", 2)
-    for cname, want in (("GraphQLLocatedError", ("node.source", "node.loc[0]")), ("GraphQLSyntaxError", ("self.source", "self.position"))):
+    for cname in ("GraphQLLocatedError", "GraphQLSyntaxError"):
         c = m.classes.get(cname)
         shapes.require(c is not None and "to_dict" in c.methods, "C10.K5: %s.to_dict not found" % cname)
         td = c.methods["to_dict"]
         calls = [n for n in ast.walk(td.node) if isinstance(n, ast.Call) and isinstance(n.func, ast.Name) and n.func.id == "index_to_loc"]
         r.instance("%s.to_dict index_to_loc%s" % (cname, [tuple(ast.unparse(a) for a in x.args) for x in calls]))
-        if len(calls) != 1 or tuple(ast.unparse(a) for a in calls[0].args) != want:
-            run.report(r, "%s:%s.to_dict:location-source" % (EXC, cname), td.where(), "locations are not index_to_loc(%s, %s)" % want)
-        if cname == "GraphQLLocatedError":
-            # the filter clauses of each comprehension taken together (`if a and b` and `if a if b` are the same filter)
-            guards = [" and ".join(ast.unparse(g) for g in n.ifs) for n in ast.walk(td.node) if isinstance(n, ast.comprehension) and n.ifs]
-            r.instance("node guard %s" % guards)
-            if not any("node.loc" in g and "node.source" in g for g in guards):
+        base = None
+        ok = len(calls) == 1 and len(calls[0].args) == 2
+        if ok:
+            a0, a1 = calls[0].args
+            if cname == "GraphQLSyntaxError":
+                ok = ast.unparse(a0) == "self.source" and ast.unparse(a1) == "self.position"
+            else:
+                # index_to_loc(<v>.source, <v>.loc[0]) for one and the same node variable v (whatever it is called)
+                ok = isinstance(a0, ast.Attribute) and a0.attr == "source" and isinstance(a0.value, ast.Name) \
+                    and isinstance(a1, ast.Subscript) and isinstance(a1.value, ast.Attribute) and a1.value.attr == "loc" \
+                    and isinstance(a1.value.value, ast.Name) and a1.value.value.id == a0.value.id \
+                    and isinstance(a1.slice, ast.Constant) and a1.slice.value == 0
+                base = a0.value.id if ok else None
+        if not ok:
+            run.report(r, "%s:%s.to_dict:location-source" % (EXC, cname), td.where(),
+                       "locations are not index_to_loc(%s)" % ("self.source, self.position" if cname == "GraphQLSyntaxError" else "node.source, node.loc[0]"))
+        if cname == "GraphQLLocatedError" and base is not None:
+            # everything that guards the call: filter clauses of the comprehensions it sits in, tests of the enclosing ifs
+            guards = []
+            cur, child = getattr(calls[0], "_parent", None), calls[0]
+            while cur is not None and cur is not td.node:
+                if isinstance(cur, (ast.GeneratorExp, ast.ListComp, ast.SetComp)):
+                    for g in cur.generators:
+                        guards.extend(g.ifs)
+                elif isinstance(cur, ast.If) and any(child is b for b in cur.body):
+                    guards.append(cur.test)
+                child, cur = cur, getattr(cur, "_parent", None)
+            conj = set()
+            for g in guards:
+                for term, pos in shapes.signed_subterms(g, lambda n: isinstance(n, ast.Attribute) and isinstance(n.value, ast.Name) and n.value.id == base
+                                                        and n.attr in ("loc", "source")):
+                    if pos:
+                        conj.add(term.attr)
+            r.instance("node guard %s" % sorted(conj))
+            if conj != {"loc", "source"}:
                 run.report(r, "%s:GraphQLLocatedError.to_dict:unguarded" % EXC, td.where(), "nodes without loc/source are not filtered before index_to_loc")
 
     # ---- K2 abort call sites
